@@ -1,0 +1,7 @@
+//go:build !verif
+
+package reassembly
+
+// verifYield is a scheduling hook for external conformance checking; without the
+// "verif" build tag it is an empty function that the compiler removes.
+func verifYield(point string) {}
